@@ -103,3 +103,26 @@ pub proof fn lemma_no_sep_before_first(s: Seq<char>, d: char, k: int)
         if k < s.len() { assert(s[k] == s.skip(1)[k - 1]); }
     }
 }
+
+/// a text without the separator splits into itself alone
+pub proof fn lemma_split_without_sep(s: Seq<char>, c: char)
+    requires forall|i: int| 0 <= i < s.len() ==> #[trigger] s[i] != c
+    ensures split_spec(s, c) =~= seq![s]
+    decreases s.len()
+{
+    if s.len() > 0 {
+        let t = s.drop_first();
+        assert forall|i: int| 0 <= i < t.len() implies #[trigger] t[i] != c by { assert(t[i] == s[i + 1]); }
+        lemma_split_without_sep(t, c);
+        assert(split_spec(t, c) =~= seq![t]);
+        assert(s[0] != c);
+        let rest = split_spec(t, c);
+        assert(rest.len() == 1 && rest[0] == t);
+        assert(split_spec(s, c) == rest.update(0, seq![s[0]] + rest[0]));
+        assert(seq![s[0]] + t =~= s);
+        assert(split_spec(s, c).len() == 1);
+        assert(split_spec(s, c)[0] =~= s);
+    } else {
+        assert(split_spec(s, c)[0] =~= s);
+    }
+}
